@@ -1,6 +1,7 @@
 import ScyllaVerif.Model.Util
 import ScyllaVerif.Model.Murmur3
 import ScyllaVerif.Model.PartitionKey
+import ScyllaVerif.Model.SerializedValuesC03
 /-! Line-protocol driver for C03.  Input: `<case>\t<implementation output>`; output: the model's line.
 
 * `hash <hex> <chunk lengths>`   → `<finish (chunks.foldl write init)> <murmur3Spec data>`
@@ -9,6 +10,7 @@ import ScyllaVerif.Model.PartitionKey
 * `pkidx <wire indexes>`         → the sorted `index:sequence` list (checker mode when marker indexes repeat)
 * `token <cdc 0|1> <wire> <values…>` → `pk=… tok=… key=…`
 * `ptoken <cdc 0|1> <values…>`   → `calculate_token_for_partition_key`
+* `svnth <n1,n2,…> <values…>`    → the results of successive `nth(n_i)` calls on one `SerializedValues::iter()`
 * `pname <hex utf-8 name | N>`   → `parsed=<from_str> selected=<partitioner after unwrap_or_default>`
 Value syntax: hex, `-` (empty), `N` (null), `U` (unset), `z<len>x<hh>` (`len` bytes, byte `i` = `hh + 7 i mod 256`). -/
 namespace ScyllaVerif.Drive.C03
@@ -131,6 +133,22 @@ def run (case impl : String) : String :=
       match tokenForPartitionKey cdc values with
       | .ok t => s!"ok {t}"
       | .error n => s!"err tooLong {n}"
+    | _, _ => "bad-case"
+  | "svnth" :: ks :: vals =>
+    match parseNatList ks, vals.mapM parseValue with
+    | some ks, some values =>
+      let showV : RawValue → String := fun v => match v with
+        | .null => "N" | .unset => "U" | .value bs => "v:" ++ toHex bs
+      -- successive `nth` calls on one iterator over the serialized buffer
+      let rec go (ks : List Nat) (buf : List UInt8) (acc : List String) : List String :=
+        match ks with
+        | [] => acc.reverse
+        | k :: rest =>
+          match ScyllaVerif.SerializedValuesC03.nth k buf with
+          | .done => go rest [] ("none" :: acc)
+          | .panic => ("panic" :: acc).reverse
+          | .item v buf' => go rest buf' (showV v :: acc)
+      " ".intercalate (go ks (ScyllaVerif.SerializedValuesC03.encodeValues values) [])
     | _, _ => "bad-case"
   | ["pname", name] =>
     let showP : PartitionerName → String := fun p => match p with | .murmur3 => "murmur3" | .cdc => "cdc"
